@@ -800,6 +800,7 @@ inductive Res where
   | installed (a : AuthId) (leo hw : Nat)
   | receipt (r : Receipt)
   | err (e : Err)
+  | batch (outs : List SOut)
   | ok
   | notup
   | already
@@ -975,9 +976,35 @@ def repairProps (s : Sys) (f committed : Nat) : List PRec → Sys × Bool
     let s := s.setStore f st
     if out.isDurable then repairProps s f committed ps else (s, false)
 
+/-- one follower Sync BATCH (several replicate items of one channel in one exchange): every item is
+    applied in order, none stops the others; the result is the per-item outcome list -/
+def batchProps (s : Sys) (f committed : Nat) : List PRec → Sys × List SOut
+  | [] => (s, [])
+  | p :: ps =>
+    let (st, out) := (s.storeOf f).sync p.m p.contents (min committed p.m.last)
+    let (s', outs) := batchProps (s.setStore f st) f committed ps
+    (s', out :: outs)
+
+/-- `repair l f (1000+nf)`: the leader's proposals [nf, LEO] followed by an exact REPLAY of the
+    proposal ending at nf-1, sent to the follower as ONE batch (≤ 4 items) -/
+def batchFollower (s : Sys) (l f nf : Nat) : Sys × Res :=
+  if l = f then (s, .err .norepair) else
+  match (s.storeOf l).load with
+  | .error _ => (s, .err .norepair)
+  | .ok state =>
+    let asc := (s.storeOf l).props.reverse
+    let tail := asc.filter (fun p => p.m.last ≥ nf)
+    let replay := (asc.filter (fun p => p.m.last + 1 == nf)).take 1
+    let items := tail ++ replay
+    if nf = 0 ∨ !(tail.head?.any (fun p => p.m.base + 1 == nf)) ∨ items.length > 4 ∨ !s.isUp f then (s, .err .norepair)
+    else
+      let (s', outs) := batchProps s f state.committed items
+      (s', .batch outs)
+
 /-- `repair(l → f, needFrom)`: load the leader frontier (with the identity before needFrom),
     fetch the leader's proposals [needFrom, LEO] and replicate them to the follower -/
 def repairFollower (s : Sys) (l f nf : Nat) : Sys × Res :=
+  if nf ≥ 1000 then batchFollower s l f (nf - 1000) else
   if l = f then (s, .err .norepair) else
   match (s.storeOf l).load with
   | .error _ => (s, .err .norepair)
